@@ -881,3 +881,200 @@ pub fn replay_roundtrip(case: &Value) -> bool {
     c09_one(&b, &pats, case, true, &mut acc);
     !acc.violations.is_empty()
 }
+
+// ------------------------------------------------------------------------------------------------
+// C07: haystack objects whose view changes between calls ("safe callers cannot trigger memory
+// unsafety through any safe API"). The slice entry points take `P: AsRef<[u8]>` / `P: AsRef<str>`
+// and call `as_ref()` again and again; a safe implementation may answer differently each time. The
+// environment's answers are enumerated with one deviation: the object shows view 1 for the first k
+// calls and view 2 from then on, for every k.
+
+/// A haystack whose `as_ref()` switches from one view to another after `k` calls.
+pub struct Shifty {
+    v1: Vec<u8>,
+    v2: Vec<u8>,
+    k: usize,
+    calls: std::cell::Cell<usize>,
+}
+
+impl Shifty {
+    pub fn new(v1: &[u8], v2: &[u8], k: usize) -> Self {
+        Shifty { v1: v1.to_vec(), v2: v2.to_vec(), k, calls: std::cell::Cell::new(0) }
+    }
+    fn view(&self) -> &[u8] {
+        let c = self.calls.get();
+        self.calls.set(c + 1);
+        if c < self.k {
+            &self.v1
+        } else {
+            &self.v2
+        }
+    }
+    pub fn calls(&self) -> usize {
+        self.calls.get()
+    }
+}
+impl AsRef<[u8]> for Shifty {
+    fn as_ref(&self) -> &[u8] {
+        self.view()
+    }
+}
+impl AsRef<str> for Shifty {
+    fn as_ref(&self) -> &str {
+        // both views are valid UTF-8 by construction (checked when the universe is built)
+        std::str::from_utf8(self.view()).expect("views are valid UTF-8")
+    }
+}
+
+const SHIFTY_METHODS: [Method; 4] = [Method::Find, Method::Ovl, Method::NoSuf, Method::Lm];
+
+/// One shifty search. Returns the number of `as_ref()` calls the search made. Any result is
+/// acceptable (the input is inconsistent); undefined behaviour is caught by the precondition checks
+/// (abort -> panic hook -> violation for the declared case), a plain panic is memory safe.
+pub fn run_shifty(auto: &Auto, m: Method, sh: &Shifty) -> (usize, bool) {
+    let r = std::panic::catch_unwind(std::panic::AssertUnwindSafe(|| {
+        util::in_lib(|| {
+            let cap = 64 * (sh.v1.len() + sh.v2.len() + 4);
+            let mut n = 0usize;
+            macro_rules! drain {
+                ($it:expr) => {{
+                    for _m in $it {
+                        n += 1;
+                        if n > cap {
+                            break;
+                        }
+                    }
+                }};
+            }
+            match auto {
+                Auto::B(a) => match m {
+                    Method::Find => drain!(a.find_iter(sh)),
+                    Method::Ovl => drain!(a.find_overlapping_iter(sh)),
+                    Method::NoSuf => drain!(a.find_overlapping_no_suffix_iter(sh)),
+                    _ => drain!(a.leftmost_find_iter(sh)),
+                },
+                Auto::C(a) => match m {
+                    Method::Find => drain!(a.find_iter(sh)),
+                    Method::Ovl => drain!(a.find_overlapping_iter(sh)),
+                    Method::NoSuf => drain!(a.find_overlapping_no_suffix_iter(sh)),
+                    _ => drain!(a.leftmost_find_iter(sh)),
+                },
+            }
+        })
+    }));
+    if r.is_err() {
+        let _ = util::take_last_panic();
+    }
+    (sh.calls(), r.is_err())
+}
+
+fn shifty_words(letters: &[&str], n: usize) -> Vec<Vec<u8>> {
+    let mut out: Vec<Vec<u8>> = vec![Vec::new()];
+    let mut layer: Vec<String> = vec![String::new()];
+    for _ in 0..n {
+        let mut next = Vec::new();
+        for w in &layer {
+            for l in letters {
+                next.push(format!("{w}{l}"));
+            }
+        }
+        out.extend(next.iter().map(|w| w.as_bytes().to_vec()));
+        layer = next;
+    }
+    out
+}
+
+pub fn c07_shifty(tier: &str, acc: &mut Acc, bounds: &mut Vec<String>) {
+    let prop = "C07";
+    let thorough = tier_is_thorough(tier);
+    // letters of every UTF-8 width; patterns over the same letters
+    let letters = ["a", "\u{e9}", "\u{4e16}", "\u{1f600}"];
+    let views = shifty_words(&letters, if thorough { 3 } else { 2 });
+    let psets: Vec<Vec<&str>> = vec![
+        vec!["a", "\u{e9}a", "\u{4e16}\u{e9}"],
+        vec!["\u{1f600}", "a\u{1f600}a", "\u{4e16}"],
+        vec!["aa", "a\u{4e16}", "\u{4e16}\u{4e16}a", "\u{e9}"],
+    ];
+    let mut tasks: Vec<(usize, Variant, Kind)> = Vec::new();
+    for pi in 0..psets.len() {
+        for variant in Variant::ALL {
+            for kind in Kind::ALL {
+                tasks.push((pi, variant, kind));
+            }
+        }
+    }
+    let a = util::par_for(tasks.len(), |ti, acc| {
+        let (pi, variant, kind) = tasks[ti];
+        let pats: Vec<Vec<u8>> = psets[pi].iter().map(|s| s.as_bytes().to_vec()).collect();
+        let cfg = Cfg::new(variant, kind, None, Entry::Builder);
+        let mut case = e2::case_json(&cfg, &pats, None);
+        case.as_object_mut().unwrap().insert("check".into(), json!("shifty"));
+        set_case(prop, "shifty", case);
+        let Some(b) = e2::build_or_violate(prop, "shifty", cfg, &pats, None, acc) else {
+            return;
+        };
+        let slot = util::my_slot();
+        let mut enc: Vec<u8> = Vec::new();
+        for v1 in &views {
+            for v2 in &views {
+                if v1 == v2 {
+                    continue;
+                }
+                acc.evals += 1;
+                for (mi, &m) in SHIFTY_METHODS.iter().enumerate() {
+                    if (m == Method::Lm) != (kind != Kind::Std) {
+                        continue;
+                    }
+                    // every switch point: k = 0 .. the number of calls the search makes
+                    let mut k = 0usize;
+                    loop {
+                        enc.clear();
+                        enc.extend_from_slice(&[k as u8, mi as u8, v1.len() as u8]);
+                        enc.extend_from_slice(v1);
+                        enc.extend_from_slice(v2);
+                        util::set_hay(&slot, &enc);
+                        let sh = Shifty::new(v1, v2, k);
+                        let (calls, panicked) = run_shifty(&b.auto, m, &sh);
+                        acc.traces += 1;
+                        if panicked {
+                            acc.count("shifty_safe_panics", 1);
+                        }
+                        if calls > k {
+                            acc.nontrivial += 1;
+                        }
+                        k += 1;
+                        if k > calls || k > 200 {
+                            break;
+                        }
+                    }
+                }
+            }
+        }
+    });
+    acc.merge(a);
+    bounds.push(format!("inconsistent haystack objects (AsRef answers change once, at every possible call): {} views of <= {} characters over 4 letters of UTF-8 width 1-4, every ordered pair x every switch point x 3 pattern sets x both variants x 3 kinds x the slice entry points, under precondition checks", views.len(), if thorough { 3 } else { 2 }));
+}
+
+pub fn replay_shifty(case: &Value) -> bool {
+    let cfg = Cfg::from_json(case);
+    let pats: Vec<Vec<u8>> = case["patterns"].as_array().unwrap().iter().map(|p| util::unhex(p.as_str().unwrap())).collect();
+    let enc = util::unhex(case["haystack"].as_str().unwrap_or(""));
+    if enc.len() < 3 {
+        println!("replay: no shifty parameters recorded");
+        return false;
+    }
+    let (k, mi, l1) = (enc[0] as usize, enc[1] as usize, enc[2] as usize);
+    let v1 = &enc[3..3 + l1];
+    let v2 = &enc[3 + l1..];
+    let mut acc = Acc::new();
+    let Some(b) = e2::build_or_violate("C07", "shifty", cfg, &pats, None, &mut acc) else {
+        return true;
+    };
+    println!("replay: {} on a haystack object that shows {:?} for the first {k} as_ref() calls and {:?} afterwards", SHIFTY_METHODS[mi].name(), String::from_utf8_lossy(v1), String::from_utf8_lossy(v2));
+    set_case("C07", "shifty", case.clone());
+    util::set_hay(&util::my_slot(), &enc);
+    let sh = Shifty::new(v1, v2, k);
+    let (calls, panicked) = run_shifty(&b.auto, SHIFTY_METHODS[mi], &sh);
+    println!("replay: completed without undefined behaviour ({calls} as_ref() calls, safe panic: {panicked})");
+    false
+}
